@@ -43,4 +43,7 @@ Bound == /\ Len(msgs) <= 3 /\ Len(pend) <= 2 /\ ntx <= 2 /\ Len(to) <= 2
          /\ \A m \in 1..Len(msgs) : Len(msgs[m].lines) <= 4
          /\ TLCGet("level") <= MaxLevel
 View == <<cfg, conn, closing, timer, helo, from, to, mode, cur, failed, inhdr, inbody, msgs, pend, batches, ntx, acc>>
+\* vacuity: these are FALSE in reachable states (deviations D2, D4): the run must report them violated
+NoOrphanRcpt == to # <<>> => from # 0
+NoDoubleLost == \A m \in 1..Len(msgs) : msgs[m].lost <= 1
 =============================================================================
